@@ -1387,9 +1387,23 @@ def _fstmt(p, in_arm=False):
         return ("match",) + s
     if p.at("for"):
         p.take(); x = p.take()
+        if x[1] == "(":                       # `for (k, v) in m` (fifth executor only)
+            names = []
+            while not p.at(")"):
+                t = p.take()
+                if t[0] != "id": fail("unsupported `for` pattern")
+                names.append(t[1])
+                if p.at(","): p.take()
+            p.take(")"); p.take("in")
+            return ("foreach", names, _fexpr(p, nostruct=True), _fblock(p))
         if x[0] != "id": fail("unsupported `for` pattern")
         p.take("in")
-        lo = _fexpr_add(p); p.take(".."); hi = _fexpr_add(p)
+        saved = _NOSTRUCT[0]; _NOSTRUCT[0] = True
+        try: lo = _fexpr_add(p)
+        finally: _NOSTRUCT[0] = saved
+        if not p.at(".."):                    # `for x in xs` (fifth executor only)
+            return ("foreach", [x[1]], lo, _fblock(p))
+        p.take(".."); hi = _fexpr_add(p)
         return ("for", x[1], lo, hi, _fblock(p))
     if p.at("loop"):
         p.take()
@@ -1409,6 +1423,7 @@ def _fstmt(p, in_arm=False):
         op = p.take()[1]
         if e[0] == "id": target = e[1]
         elif e[0] == "field" and e[1][0] == "id": target = e[1][1] + "." + e[2]
+        elif e[0] == "field" and _fpath(e) is not None: target = _fpath(e)      # `a.b.c = ..` (fifth executor)
         else: fail("assignment to something that is neither a local nor a field of a local")
         rhs = _fexpr(p)
         _fend(p, in_arm)
@@ -1416,6 +1431,13 @@ def _fstmt(p, in_arm=False):
     if in_arm: return ("expr", e)
     if _fend(p): return ("exprstmt", e)
     return ("expr", e)
+
+def _fpath(e):
+    if e[0] == "id": return e[1]
+    if e[0] == "field":
+        b = _fpath(e[1])
+        return None if b is None else b + "." + e[2]
+    return None
 
 def _fif(p):
     p.take("if")
@@ -1458,6 +1480,22 @@ def _fpat(p):
     if t[0] != "id": fail("unsupported pattern %r" % (t[1],))
     if t[1] == "_": return ("pwild",)
     if t[1] == "None": return ("pnone",)
+    if p.at("::"):
+        # `Enum::Variant` / `Enum::Variant(x, _, ref y)` (fifth executor)
+        p.take(); v = p.take()
+        if v[0] != "id": fail("unsupported path pattern")
+        subs = []
+        if p.at("("):
+            p.take()
+            while not p.at(")"):
+                x = p.take()
+                if x[1] == "ref": x = p.take()
+                if x[0] != "id" or x[1] == "mut": fail("unsupported pattern inside %s::%s(..)" % (t[1], v[1]))
+                subs.append(x[1])
+                if p.at(","): p.take()
+                elif not p.at(")"): fail("unsupported pattern inside %s::%s(..)" % (t[1], v[1]))
+            p.take(")")
+        return ("penum", t[1], v[1], subs)
     if t[1] in ("Ok", "Err", "Some") and p.at("("):
         p.take()
         if p.at("("):
@@ -1471,6 +1509,7 @@ def _fpat(p):
             if t[1] != "Ok": fail("tuple pattern inside %s(..)" % t[1])
             return ("poktuple", names)
         x = p.take()
+        if x == ("id", "ref") and p.peek()[0] == "id" and p.peek()[1] != "mut": x = p.take()   # `Some(ref v)`: a borrow of the same value
         if x[0] != "id": fail("unsupported pattern inside %s(..)" % t[1])
         if p.at("mut"): fail("`mut` binding in a pattern")
         p.take(")")
@@ -1541,6 +1580,9 @@ def _fexpr_postfix(p):
             if m[0] == "num":
                 e = ("proj", e, int(m[1]))
             elif m[0] != "id": fail("unsupported field access")
+            elif p.at("::", "<") and p.peek(2)[0] == "id" and p.peek(3)[1] == ">" and p.peek(4)[1] == "(":
+                p.take(); p.take(); ty = p.take()[1]; p.take(">")      # `.parse::<i32>()` (fifth executor)
+                e = ("method", e, "%s::<%s>" % (m[1], ty), _fargs(p))
             elif p.at("("):
                 e = ("method", e, m[1], _fargs(p))
             else:
@@ -1564,7 +1606,22 @@ def _fexpr_primary(p):
     if tok[0] == "str": return ("lit_str", unescape(tok[1][1:-1]))
     if tok[0] == "char": return ("char", unescape(tok[1][1:-1]))
     if tok[0] == "num": return ("num", int(tok[1]))
+    if tok[1] == "(" and p.at(")"):
+        p.take(); return ("tuple", [])
+    if tok[1] == "|":                          # a closure `|a, b| e` (fifth executor only: `retain`)
+        names = []
+        while not p.at("|"):
+            if p.at("&"): p.take()
+            t = p.take()
+            if t[0] != "id": fail("unsupported closure parameter")
+            names.append(t[1])
+            if p.at(","): p.take()
+        p.take("|")
+        if p.at("{"): fail("a closure with a block body")
+        return ("closure", names, _fexpr(p))
     if tok[1] == "(":
+        if p.at(")"):
+            p.take(); return ("tuple", [])
         saved = _NOSTRUCT[0]; _NOSTRUCT[0] = False
         e = _fexpr(p)
         if p.at(","):
@@ -2515,3 +2572,1472 @@ def frender(t, indent):
         return "%smatch %s with\n%s| .panic => .panic\n%s| .err e => .err e\n%s| .ok %s =>\n%s" % (
             pad, t[1], pad, pad, pad, t[2], frender(t[3], indent + 1))
     fail("render: %r" % (k,))
+
+# =============================================================================================
+# fifth executor: the METHODS of a struct whose fields are `HashMap<String, _>`s
+# (`impl Commands` of duckscript/src/types/command.rs: `commands`, `aliases`).
+#
+# A method `fn m(&mut self, p: T, …) -> R` becomes
+#     def mGen {MC MA : Type} [FinMap MC CmdSpec] [FinMap MA Str] (commands : MC) (aliases : MA) (p : T') … : (MC × MA) × R'
+# (`&self`: the result type is `R'` alone; `fn new() -> Self`: `MC × MA`), written against the
+# ABSTRACT finite map of lean/DuckModel/FinMap.lean — every HashMap operation is a call of one of
+# its operations, nothing is known about the representation:
+#     m.get(&k)  FinMap.get m k        m.contains_key(&k)  FinMap.contains m k
+#     m.insert(k, v);  m := FinMap.insert m k v          m.remove(&k);  m := FinMap.erase m k
+#     m.remove(&k) as a value: FinMap.get m k (and m := FinMap.erase m k afterwards)
+#     m.retain(|k, v| p);  m := FinMap.filter (fun k v => p) m
+#     m.keys()  FinMap.keys m          `for (k, v) in &m` / m.iter()  FinMap.toList m
+#     HashMap::new()  FinMap.empty
+# The parser is the fourth executor's (`fparse_block`).  Subset:
+#   statements   let [mut] x = e ;   x = e ;   e ; (a call with an effect)   if c {..} [else ..]
+#                match opt { Some([ref] x) => .., None => .. }   (statement, `let x = match ..`, value)
+#                if let Some(x) = opt {..} [else {..}]      for x in &xs {..}   for k in m.keys() {..}
+#                for (k, v) in &m {..}      return e ;      a trailing expression
+#   expressions  locals, parameters, self.field, None Some(e) Ok(()) Err(ScriptError::K(format!(..)))
+#                true false "text" vec![] Vec::new() HashMap::new() Struct { field: e, .. }
+#                ! && || == != (strings, options)   .clone() .to_string() .to_owned() .as_str() .iter()
+#                .cloned() .is_some() .is_none() .push(e) .sort()  self.m(..) of a translated `&self` method
+#                obj.name() / obj.aliases() (the methods of the stored object given in the configuration)
+# How things are rendered: every local is a symbolic VALUE (never a Lean `let`), the two maps are
+# tracked separately (so independent statements commute textually); a `match` / `if let` on an
+# option whose state is not known becomes `match … with | none => … | some x => …`, what follows
+# being executed in either arm; `if !c {A} else {B}` is rendered as `if c then B else A`; operands
+# of `==` are put in a canonical order; a loop whose body never returns is
+# `List.foldl (fun state x => …) init xs` over the things the body changes (self fields first, in
+# field order, then locals in declaration order); a loop whose body may `return` is
+# `match forEach (fun state x => …) xs init with | .ret r => r | .next state => …`
+# (`forEach` / `LoopStep` of FinMap.lean); `break` / `continue` / `while` are outside the subset.
+# `Result<(), ScriptError>` is rendered as `Bool` (`true` = `Ok(())`); every `Err` must be one of
+# the error kinds given in the configuration; the message text is dropped.  `xs.sort()` on a
+# `Vec<String>` is the configuration's sort function.
+# =============================================================================================
+
+class HConfig:
+    def __init__(self, struct, fields, types, objs, err_kinds, sort_fn, methods):
+        """struct: Rust struct name; fields: [(rust field, lean parameter, lean type variable, value type)];
+        types: Rust type text -> Lean type ("RESULT_UNIT" for Result<(),ScriptError>); objs: Lean
+        type -> {rust method: (lean type, lean field)}; err_kinds: accepted ScriptError variants;
+        sort_fn: Lean function for `.sort()` of a List Str; methods: Rust method -> dict(lean, params, ret, selfkind)"""
+        self.struct, self.fields, self.types, self.objs = struct, fields, types, objs
+        self.err_kinds, self.sort_fn, self.methods = err_kinds, sort_fn, methods
+
+HUNIT = ("unit",)
+
+class HEnv:
+    def __init__(self, vals=None, order=None, bound=None):
+        self.vals, self.order, self.bound = dict(vals or {}), list(order or []), set(bound or ())
+    def copy(self):
+        return HEnv(self.vals, self.order, self.bound)
+    def declare(self, name, v):
+        if name in self.order: self.order.remove(name)
+        self.order.append(name); self.vals[name] = v
+    def fresh(self, rust_name):
+        base = camel(rust_name) or "x"
+        name, k = base, 0
+        while name in self.bound:
+            k += 1; name = "%s_%d" % (base, k)
+        self.bound.add(name)
+        return name
+
+class HCtx:
+    def __init__(self, cfg, fn_name, self_kind, ret, mode="fn", early=False, state=None):
+        self.cfg, self.fn_name, self.self_kind, self.ret = cfg, fn_name, self_kind, ret
+        self.mode, self.early, self.state = mode, early, state
+    def full_ret(self):
+        cfg = self.cfg
+        st = " × ".join(f[2] for f in cfg.fields)
+        if self.ret == "SELF": return st
+        r = "Bool" if self.ret == "RESULT_UNIT" else self.ret
+        return "(%s) × %s" % (st, _par(r) if "×" in r else r) if self.self_kind == "mut" else r
+
+def hopaque(ty, text):
+    if ty == "Str": return ("str", text)
+    if ty == "Bool": return ("bool", ("b", text))
+    if ty == "Unit": return HUNIT
+    if ty.startswith("Option "):
+        inner = ty[len("Option "):]
+        if inner.startswith("(") and inner.endswith(")"): inner = inner[1:-1]
+        return ("opt", inner, ("opaque", text))
+    if ty.startswith("List "):
+        inner = ty[len("List "):]
+        if inner.startswith("(") and inner.endswith(")"): inner = inner[1:-1]
+        return ("list", inner, text)
+    if "×" in ty:
+        parts = [q.strip() for q in _split_prod(ty)] if "_split_prod" in globals() else None
+        fail("no symbolic value for the product type %s" % ty)
+    return ("obj", ty, text)
+
+def htype(v):
+    k = v[0]
+    if k == "str": return "Str"
+    if k == "bool": return "Bool"
+    if k == "unit": return "Unit"
+    if k == "obj": return v[1]
+    if k == "map": return v[1]
+    if k == "opt":
+        t = v[1]
+        if t is None and v[2][0] == "some": t = htype(v[2][1])
+        return None if t is None else "Option %s" % _par(t)
+    if k == "list": return None if v[1] is None else "List %s" % _par(v[1])
+    fail("a value of kind %s has no Lean type here" % k)
+
+def hval(v):
+    k = v[0]
+    if k == "str": return v[1]
+    if k == "bool": return fcond_bool(v[1])
+    if k == "unit": return "()"
+    if k in ("obj", "map"): return v[2]
+    if k == "list": return v[2]
+    if k == "opt":
+        st = v[2]
+        if st[0] == "none": return "none"
+        if st[0] == "some": return "some %s" % _fpar(hval(st[1]))
+        return st[1]
+    fail("a value of kind %s cannot be rendered" % k)
+
+def hlvalue(e):
+    if e[0] == "id": return e[1]
+    if e[0] == "field" and e[1] == ("id", "self"): return "self." + e[2]
+    return None
+
+HMUTATORS = ("insert", "remove", "retain", "push", "sort", "clear", "extend", "append", "pop", "truncate", "dedup", "reverse", "drain", "entry", "get_mut", "iter_mut", "values_mut")
+
+def hassigned(node, out):
+    """the locals / self fields a piece of code changes (assignment or a mutating method)"""
+    if isinstance(node, tuple):
+        if node and node[0] == "assign":
+            n = node[1]
+            if n not in out: out.append(n)
+        if node and node[0] == "method" and node[2] in HMUTATORS:
+            n = hlvalue(node[1])
+            if n is None: fail("a mutating method on something that is neither a local nor a field of self")
+            if n not in out: out.append(n)
+        for x in node: hassigned(x, out)
+    elif isinstance(node, list):
+        for x in node: hassigned(x, out)
+    return out
+
+def hhas(node, kinds):
+    if isinstance(node, tuple):
+        if node and node[0] in kinds: return True
+        return any(hhas(x, kinds) for x in node)
+    if isinstance(node, list):
+        return any(hhas(x, kinds) for x in node)
+    return False
+
+def hget(name, env):
+    if name in env.vals: return env.vals[name]
+    fail("unknown variable %s" % name)
+
+def hfieldinfo(cfg, rust_field):
+    for f in cfg.fields:
+        if f[0] == rust_field: return f
+    fail("unknown field self.%s" % rust_field)
+
+def heq(a, b):
+    """`a == b` as a condition tree; operands in a canonical order"""
+    if a[0] == "str" and b[0] == "str":
+        x, y = sorted([hval(a), hval(b)])
+    elif a[0] == "opt" and b[0] == "opt":
+        if a[2][0] != "opaque" and b[2][0] == "opaque": a, b = b, a
+        if a[2][0] == "none" and b[2][0] == "none": return T
+        if a[2][0] == "some" and b[2][0] == "some": return heq(a[2][1], b[2][1])
+        if {a[2][0], b[2][0]} == {"none", "some"}: return F
+        x, y = hval(a), hval(b)
+        if a[2][0] == "opaque" and b[2][0] == "opaque": x, y = sorted([x, y])
+    elif a[0] == "bool" and b[0] == "bool":
+        x, y = sorted([hval(a), hval(b)])
+    else:
+        fail("unsupported comparison")
+    if x == y: return T
+    return ("p", "%s = %s" % (x, y), ("=", x, y))
+
+def heval(e, env, ctx):
+    """the value of an expression; effects (insert / remove / push …) are applied to `env`"""
+    cfg = ctx.cfg
+    k = e[0]
+    if k == "bool": return ("bool", T if e[1] else F)
+    if k == "lit_str": return ("str", "[%s]" % ", ".join(lean_char(c) for c in e[1]))
+    if k == "none": return ("opt", None, ("none",))
+    if k == "some":
+        v = heval(e[1], env, ctx)
+        return ("opt", htype(v), ("some", v))
+    if k == "ok":
+        v = heval(e[1], env, ctx)
+        if v != HUNIT: fail("Ok(..) of something else than ()")
+        return ("res_ok",)
+    if k == "errc":
+        x = e[1]
+        if x[0] != "pathcall" or x[1] != "ScriptError" or x[2] not in cfg.err_kinds:
+            fail("Err(..) of something else than ScriptError::%s(..)" % "/".join(cfg.err_kinds))
+        return ("res_err",)
+    if k == "tuple":
+        if not e[1]: return HUNIT
+        fail("tuples are outside the subset")
+    if k == "id":
+        if e[1] == "self": fail("`self` as a value")
+        return hget(e[1], env)
+    if k == "field":
+        name = hlvalue(e)
+        if name is None: fail("unsupported field access")
+        return hget(name, env)
+    if k == "not":
+        v = heval(e[1], env, ctx)
+        if v[0] != "bool": fail("`!` of a non-boolean")
+        return ("bool", _cnot(v[1]))
+    if k == "bin":
+        op = e[1]
+        if op in ("&&", "||"):
+            a = heval(e[2], env, ctx)
+            if hassigned(e[3], []): fail("an effect in a short-circuited operand")
+            b = heval(e[3], env, ctx)
+            if a[0] != "bool" or b[0] != "bool": fail("`%s` of non-booleans" % op)
+            return ("bool", _cand(a[1], b[1]) if op == "&&" else _cor(a[1], b[1]))
+        if op in ("==", "!="):
+            a, b = heval(e[2], env, ctx), heval(e[3], env, ctx)
+            c = heq(a, b)
+            return ("bool", c if op == "==" else _cnot(c))
+        fail("unsupported operator %s" % op)
+    if k == "macro":
+        if e[1] == "vec" and not e[2]: return ("list", None, "[]")
+        fail("unsupported macro %s!" % e[1])
+    if k == "pathcall":
+        if e[2] == "new" and not e[3]:
+            if e[1] == "String": return ("str", "[]")
+            if e[1] == "Vec": return ("list", None, "[]")
+            if e[1] == "HashMap": return ("map", None, "FinMap.empty")
+        fail("unsupported call %s::%s" % (e[1], e[2]))
+    if k == "struct":
+        if e[1] not in (cfg.struct, "Self"): fail("unsupported struct literal %s" % e[1])
+        got = dict(e[2])
+        if sorted(got) != sorted(f[0] for f in cfg.fields): fail("struct literal %s with other fields" % e[1])
+        vals = {}
+        for f in cfg.fields:
+            v = heval(got[f[0]], env, ctx)
+            if v[0] != "map": fail("field %s of %s is not a map" % (f[0], e[1]))
+            vals[f[0]] = v
+        return ("selfval", vals)
+    if k == "method":
+        return hmethod(e, env, ctx)
+    if k in ("ifexpr", "matchexpr"):
+        fail("`if` / `match` as a sub-expression")
+    fail("unsupported expression %r" % (k,))
+
+def hmut(env, ctx, name, v):
+    if name.startswith("self.") and ctx.self_kind != "mut": fail("a field of `&self` is changed")
+    if name not in env.vals: fail("unknown variable %s" % name)
+    env.vals[name] = v
+
+def hmethod(e, env, ctx):
+    cfg = ctx.cfg
+    recv, m, args = e[1], e[2], e[3]
+    if recv == ("id", "self"):
+        if m not in cfg.methods: fail("call of the untranslated method self.%s" % m)
+        cal = cfg.methods[m]
+        if cal["selfkind"] != "ref": fail("call of self.%s, which is not a `&self` method" % m)
+        if len(args) != len(cal["params"]): fail("wrong number of arguments in a call of self.%s" % m)
+        texts = [_fpar(hval(env.vals["self." + f[0]])) for f in cfg.fields]
+        for (pn, pt), a in zip(cal["params"], args):
+            v = heval(a, env, ctx)
+            if htype(v) != cfg.types.get(pt): fail("argument %s of self.%s has the type %s" % (pn, m, htype(v)))
+            texts.append(_fpar(hval(v)))
+        return hopaque(cal["ret"], "%s %s" % (cal["lean"], " ".join(texts)))
+    r = heval(recv, env, ctx)
+    if m in ("clone", "to_string", "to_owned", "as_str", "as_ref", "iter", "cloned", "as_slice", "to_vec", "into_iter") and not args:
+        if m in ("iter", "into_iter") and r[0] == "map":
+            f = hfieldinfo(cfg, hlvalue(recv)[5:]) if (hlvalue(recv) or "").startswith("self.") else fail("iteration over a map that is not a field")
+            return ("list", "Str × %s" % f[3], "FinMap.toList %s" % _fpar(r[2]))
+        return r
+    if r[0] == "map":
+        name = hlvalue(recv)
+        if name is None or not name.startswith("self."): fail("a map that is not a field of self")
+        f = hfieldinfo(cfg, name[5:])
+        mt = _fpar(r[2])
+        def key(a):
+            v = heval(a, env, ctx)
+            if v[0] != "str": fail("a map key that is not a string")
+            return _fpar(v[1])
+        if m == "get" and len(args) == 1:
+            return ("opt", f[3], ("opaque", "FinMap.get %s %s" % (mt, key(args[0]))))
+        if m == "contains_key" and len(args) == 1:
+            return ("bool", ("b", "FinMap.contains %s %s" % (mt, key(args[0]))))
+        if m == "keys" and not args:
+            return ("list", "Str", "FinMap.keys %s" % mt)
+        if m == "insert" and len(args) == 2:
+            kk = key(args[0]); v = heval(args[1], env, ctx)
+            if htype(v) != f[3]: fail("insert of a %s into %s" % (htype(v), name))
+            hmut(env, ctx, name, ("map", f[2], "FinMap.insert %s %s %s" % (mt, kk, _fpar(hval(v)))))
+            return ("opt", f[3], ("opaque", "FinMap.get %s %s" % (mt, kk)))
+        if m == "remove" and len(args) == 1:
+            kk = key(args[0])
+            hmut(env, ctx, name, ("map", f[2], "FinMap.erase %s %s" % (mt, kk)))
+            return ("opt", f[3], ("opaque", "FinMap.get %s %s" % (mt, kk)))
+        if m == "retain" and len(args) == 1 and args[0][0] == "closure" and len(args[0][1]) == 2:
+            kn, vn = args[0][1]
+            inner = env.copy()
+            lk, lv = inner.fresh(kn), inner.fresh(vn)
+            inner.declare(kn, ("str", lk)); inner.declare(vn, hopaque(f[3], lv))
+            if hassigned(args[0][2], []): fail("an effect inside a `retain` predicate")
+            c = heval(args[0][2], inner, ctx)
+            if c[0] != "bool": fail("a `retain` predicate that is not a boolean")
+            hmut(env, ctx, name, ("map", f[2], "FinMap.filter (fun %s %s => %s) %s" % (lk, lv, fcond_bool(c[1]), mt)))
+            return HUNIT
+        fail("unsupported method .%s of a map" % m)
+    if r[0] == "obj":
+        ms = cfg.objs.get(r[1], {})
+        if m in ms and not args:
+            return hopaque(ms[m][0], "%s.%s" % (_fpar(r[2]), ms[m][1]))
+        fail("unsupported method .%s of a %s" % (m, r[1]))
+    if r[0] == "opt":
+        st = r[2]
+        if m in ("is_some", "is_none") and not args:
+            c = F if st[0] == "none" else T if st[0] == "some" else ("b", "%s.isSome" % _fpar(st[1]))
+            return ("bool", c if m == "is_some" else _cnot(c))
+        fail("unsupported method .%s of an Option" % m)
+    if r[0] == "list":
+        name = hlvalue(recv)
+        if m == "push" and len(args) == 1 and name is not None:
+            v = heval(args[0], env, ctx)
+            if r[1] is not None and r[1] != htype(v): fail("push of a %s" % htype(v))
+            hmut(env, ctx, name, ("list", htype(v), "%s ++ [%s]" % (r[2], hval(v)) if r[2] != "[]" else "[%s]" % hval(v)))
+            return HUNIT
+        if m == "sort" and not args and name is not None:
+            if r[1] not in ("Str", None): fail("sort of a vector of %s" % r[1])
+            hmut(env, ctx, name, ("list", "Str", "%s %s" % (cfg.sort_fn, _fpar(r[2]))))
+            return HUNIT
+        fail("unsupported method .%s of a vector" % m)
+    fail("unsupported method .%s" % m)
+
+def hstate_text(env, ctx):
+    vals = [hval(hget(n, env)) for n in ctx.state]
+    return "()" if not vals else vals[0] if len(vals) == 1 else "(%s)" % ", ".join(vals)
+
+def hresult(v, env, ctx):
+    """the leaf for `return v` / the value of the function body"""
+    cfg = ctx.cfg
+    if ctx.ret == "SELF":
+        if v[0] != "selfval": fail("%s does not return a %s" % (ctx.fn_name, cfg.struct))
+        text = "(%s)" % ", ".join(hval(v[1][f[0]]) for f in cfg.fields)
+    else:
+        if ctx.ret == "RESULT_UNIT":
+            if v[0] not in ("res_ok", "res_err"): fail("%s does not return a Result" % ctx.fn_name)
+            text = "true" if v[0] == "res_ok" else "false"
+        else:
+            if v[0] == "opt" and v[1] is None and ctx.ret.startswith("Option "): pass
+            elif v[0] == "list" and v[1] is None and ctx.ret.startswith("List "): pass
+            elif htype(v) != ctx.ret: fail("%s returns a %s, not a %s" % (ctx.fn_name, htype(v), ctx.ret))
+            text = hval(v)
+        if ctx.self_kind == "mut":
+            text = "((%s), %s)" % (", ".join(hval(env.vals["self." + f[0]]) for f in cfg.fields), text)
+    if ctx.mode == "loop":
+        return ("leaf", ".ret %s" % _fpar(text))
+    return ("leaf", text)
+
+def hite(c, mk_then, mk_else):
+    if c == T: return mk_then()
+    if c == F: return mk_else()
+    if c[0] == "not": return ("ite", c[1], mk_else(), mk_then())
+    return ("ite", c, mk_then(), mk_else())
+
+def hmatch_opt(v, arms, env, ctx, k):
+    """a `match` on the option value `v`; `k(env, value)` is what follows an arm"""
+    none_arm = some_arm = None
+    for pat, body in arms:
+        if pat[0] == "pnone" and none_arm is None: none_arm = body
+        elif pat[0] == "psome" and some_arm is None: some_arm = (pat[1], body)
+        elif pat[0] == "pwild":
+            if none_arm is None: none_arm = body
+            if some_arm is None: some_arm = (None, body)
+        else: fail("unsupported pattern in a `match` on an Option")
+    if none_arm is None or some_arm is None: fail("a `match` on an Option without both arms")
+    if v[0] != "opt": fail("`match` on something that is not an Option")
+    st = v[2]
+    def run_some(e2, inner):
+        if some_arm[0] is not None and some_arm[0] != "_": e2.declare(some_arm[0], inner)
+        return hblock(some_arm[1], e2, ctx, k)
+    if st[0] == "none": return hblock(none_arm, env.copy(), ctx, k)
+    if st[0] == "some": return run_some(env.copy(), st[1])
+    if v[1] is None: fail("an Option of unknown type")
+    e_none, e_some = env.copy(), env.copy()
+    var = e_some.fresh(some_arm[0] if some_arm[0] not in (None, "_") else "x")
+    return ("matchopt", st[1], var, hblock(none_arm, e_none, ctx, k), run_some(e_some, hopaque(v[1], var)))
+
+def hvalue(e, env, ctx, k):
+    """evaluates `e` (splitting the path at `match` / `if` expressions), then `k(env, value)`"""
+    if e[0] == "matchexpr":
+        v = heval(e[1], env, ctx)
+        return hmatch_opt(v, e[2], env, ctx, k)
+    if e[0] == "ifexpr":
+        return hif(e[1], env, ctx, k)
+    v = heval(e, env, ctx)
+    return k(env, v)
+
+def hif(s, env, ctx, k):
+    if s[0] == "iflet":
+        pat, e, then, els = s[1], s[2], s[3], s[4]
+        v = heval(e, env, ctx)
+        return hmatch_opt(v, [(pat, then), (("pwild",), els or [])], env, ctx, k)
+    cond, then, els = s[1], s[2], s[3]
+    c = heval(cond, env, ctx)
+    if c[0] != "bool": fail("an `if` on a non-boolean")
+    return hite(c[1], lambda: hblock(then, env.copy(), ctx, k), lambda: hblock(els or [], env.copy(), ctx, k))
+
+def hblock(stmts, env, ctx, k):
+    """executes a block; `k(env, value)` receives the state at its end and its value"""
+    if not stmts: return k(env, HUNIT)
+    s, rest = stmts[0], stmts[1:]
+    kind = s[0]
+    def then_rest(e2, v):
+        if rest: return hblock(rest, e2, ctx, k)
+        return k(e2, v)
+    if kind == "let":
+        if s[1][0] != "pid": fail("unsupported `let` pattern")
+        def bind(e2, v):
+            e2.declare(s[1][1], v)
+            return hblock(rest, e2, ctx, k)
+        return hvalue(s[3], env, ctx, bind)
+    if kind == "assign":
+        if s[2] != "=": fail("unsupported assignment %s" % s[2])
+        def put(e2, v):
+            if s[1] not in e2.vals: fail("assignment to the undeclared %s" % s[1])
+            e2.vals[s[1]] = v
+            return hblock(rest, e2, ctx, k)
+        return hvalue(s[3], env, ctx, put)
+    if kind == "exprstmt":
+        return hvalue(s[1], env, ctx, lambda e2, v: hblock(rest, e2, ctx, k))
+    if kind == "expr":
+        if rest: fail("an expression that is not the value of its block")
+        return hvalue(s[1], env, ctx, k)
+    if kind in ("if", "iflet"):
+        return hif(s, env, ctx, then_rest)
+    if kind == "match":
+        v = heval(s[1], env, ctx)
+        return hmatch_opt(v, s[2], env, ctx, then_rest)
+    if kind == "return":
+        return hvalue(s[1], env, ctx, lambda e2, v: hresult(v, e2, ctx))
+    if kind == "foreach":
+        return hloop(s, rest, env, ctx, k)
+    if kind in ("for", "loop", "break"):
+        fail("`%s` is outside the subset" % kind)
+    fail("unsupported statement %r" % (kind,))
+
+def hloop(s, rest, env, ctx, k):
+    cfg = ctx.cfg
+    pats, it, body = s[1], s[2], s[3]
+    if hassigned(it, []): fail("an effect in the sequence of a `for`")
+    xs = heval(it, env, ctx)
+    if xs[0] != "list" or xs[1] is None: fail("a `for` over something that is not a vector / the keys / the entries of a map")
+    changed = hassigned(body, [])
+    inner_decl = []
+    def decls(node):
+        if isinstance(node, tuple):
+            if node and node[0] == "let" and node[1][0] == "pid": inner_decl.append(node[1][1])
+            for x in node: decls(x)
+        elif isinstance(node, list):
+            for x in node: decls(x)
+    decls(body)
+    changed = [n for n in changed if n not in inner_decl or n in env.vals]
+    for n in changed:
+        if n not in env.vals: fail("the loop changes the unknown %s" % n)
+    fields = ["self." + f[0] for f in cfg.fields]
+    state = [n for n in fields if n in changed] + [n for n in env.order if n in changed and n not in fields]
+    if hhas(body, ("break",)) or hhas(body, ("for", "loop")): fail("`break` / a nested range loop in a `for`")
+    early = hhas(body, ("return",)) or hhas(body, ("try",))
+    if ctx.mode == "loop" and early: fail("`return` from a nested loop")
+    benv = env.copy()
+    snames = []
+    for n in state:
+        ln = benv.fresh(n[5:] if n.startswith("self.") else n)
+        snames.append(ln)
+        old = env.vals[n]
+        if old[0] == "map": benv.vals[n] = ("map", old[1], ln)
+        elif old[0] == "list": benv.vals[n] = ("list", old[1], ln)
+        else:
+            t = htype(old)
+            if t is None: fail("a loop state of unknown type")
+            benv.vals[n] = hopaque(t, ln)
+    # the loop variable(s)
+    if len(pats) == 1:
+        xv = benv.fresh(pats[0])
+        if "×" in xs[1]: fail("a single pattern for the entries of a map")
+        benv.declare(pats[0], hopaque(xs[1], xv)); xpat = xv
+    else:
+        parts = [q.strip() for q in xs[1].split("×")]
+        if len(parts) != len(pats): fail("a tuple pattern of the wrong size")
+        lvs = []
+        for pn, pt in zip(pats, parts):
+            lv = benv.fresh(pn); lvs.append(lv)
+            if pn != "_": benv.declare(pn, hopaque(pt, lv))
+        xpat = "(%s)" % ", ".join(lvs)
+    lctx = HCtx(cfg, ctx.fn_name, ctx.self_kind, ctx.ret, "loop" if early else "fold", early, state)
+    ends = []
+    def at_end(e2, v):
+        ends.append(e2)
+        text = hstate_text(e2, lctx)
+        return ("leaf", ".next %s" % _fpar(text) if early else text)
+    tree = hblock(body, benv, lctx, at_end)
+    if not state and not early:
+        return hblock(rest, env, ctx, k)          # a loop without any effect
+    spat = "_" if not state else snames[0] if len(snames) == 1 else "(%s)" % ", ".join(snames)
+    init = hstate_text(env, HCtx(cfg, ctx.fn_name, ctx.self_kind, ctx.ret, state=state))
+    # types of the state (a vector created by `vec![]` gets its type from what is pushed)
+    after = {}
+    for n, ln in zip(state, snames):
+        old = env.vals[n]
+        if old[0] == "list" and old[1] is None:
+            ts = set(e2.vals[n][1] for e2 in ends if e2.vals[n][1] is not None)
+            if len(ts) != 1: fail("a vector of unknown element type")
+            after[n] = ("list", ts.pop(), ln)
+        elif old[0] in ("map", "list"): after[n] = (old[0], old[1], ln)
+        else: after[n] = hopaque(htype(old), ln)
+    stypes = [htype(after[n]) for n in state]
+    sty = "Unit" if not state else stypes[0] if len(state) == 1 else " × ".join(_par(t) if "×" in t else t for t in stypes)
+    env = env.copy()
+    if early:
+        loop = "forEach (σ := %s) (ρ := %s) (fun %s %s => %s) %s %s" % (sty, ctx.full_ret(), spat, xpat, hflat(tree), _fpar(xs[2]), _fpar(init))
+        for n, ln in zip(state, snames):
+            env.bound.add(ln); env.vals[n] = after[n]
+        return ("matchloop", loop, spat, hblock(rest, env, ctx, k))
+    loop = "List.foldl (fun %s %s => %s) %s %s" % (spat, xpat, hflat(tree), _fpar(init), _fpar(xs[2]))
+    if len(state) == 1:
+        n = state[0]
+        a = after[n]
+        env.vals[n] = (a[0], a[1], "(%s)" % loop) if a[0] in ("map", "list", "obj") else hopaque(htype(a), "(%s)" % loop)
+        return hblock(rest, env, ctx, k)
+    for n, ln in zip(state, snames):
+        env.bound.add(ln); env.vals[n] = after[n]
+    return ("matchtuple", loop, spat, hblock(rest, env, ctx, k))
+
+def hflat(t):
+    """a tree on one line"""
+    k = t[0]
+    if k == "leaf": return t[1]
+    if k == "ite": return "if %s then %s else %s" % (fcond_prop(t[1]), hflat(t[2]), hflat(t[3]))
+    if k == "matchopt": return "(match %s with | none => %s | some %s => %s)" % (t[1], hflat(t[3]), t[2], hflat(t[4]))
+    if k == "matchloop": return "(match %s with | .ret r => .ret r | .next %s => %s)" % (t[1], t[2], hflat(t[3]))
+    if k == "matchtuple": return "(match %s with | %s => %s)" % (t[1], t[2], hflat(t[3]))
+    fail("render: %r" % (k,))
+
+def hrender(t, indent):
+    pad = "  " * indent
+    k = t[0]
+    if k == "leaf": return pad + t[1]
+    if k == "ite":
+        return "%sif %s then\n%s\n%selse\n%s" % (pad, fcond_prop(t[1]), hrender(t[2], indent + 1), pad, hrender(t[3], indent + 1))
+    if k == "matchopt":
+        return "%smatch %s with\n%s| none =>\n%s\n%s| some %s =>\n%s" % (pad, t[1], pad, hrender(t[3], indent + 1), pad, t[2], hrender(t[4], indent + 1))
+    if k == "matchloop":
+        return "%smatch %s with\n%s| .ret r => r\n%s| .next %s =>\n%s" % (pad, t[1], pad, pad, t[2], hrender(t[3], indent + 1))
+    if k == "matchtuple":
+        return "%smatch %s with\n%s| %s =>\n%s" % (pad, t[1], pad, t[2], hrender(t[3], indent + 1))
+    fail("render: %r" % (k,))
+
+def hsignature(impl_src, name, cfg):
+    """(self kind: "mut" | "ref" | None, [(param, rust type)], lean return type) of a method"""
+    m = re.search(r"(fn %s\s*\()\s*(&\s*mut\s+self|&\s*self|mut\s+self|self)?\s*,?" % re.escape(name), impl_src)
+    if not m: fail("%s not found" % name)
+    sk = None
+    if m.group(2): sk = "mut" if re.match(r"&\s*mut", m.group(2)) else "ref" if "&" in m.group(2) else fail("`self` by value in %s" % name)
+    sig = fn_signature(impl_src[:m.end(1)] + impl_src[m.end():], name)
+    if sig is None: fail("%s not found" % name)
+    params, ret = sig
+    params = [(n, t) for n, t in params]
+    if ret in (cfg.struct, "Self"): lret = "SELF"
+    elif ret in cfg.types: lret = cfg.types[ret]
+    else: fail("return type %s of %s" % (ret, name))
+    return sk, params, lret
+
+def htranslate_method(impl_src, name, cfg, lean_name):
+    sk, params, lret = hsignature(impl_src, name, cfg)
+    body = fn_body(impl_src, name)
+    stmts = fparse_block(body)
+    env = HEnv()
+    binders = "{%s : Type} %s" % (" ".join(f[2] for f in cfg.fields), " ".join("[FinMap %s %s]" % (f[2], _par(f[3]) if " " in f[3] else f[3]) for f in cfg.fields))
+    lparams = []
+    if sk is not None:
+        for f in cfg.fields:
+            env.bound.add(f[1])
+            env.declare("self." + f[0], ("map", f[2], f[1]))
+            lparams.append("(%s : %s)" % (f[1], f[2]))
+    for pn, pt in params:
+        if pt not in cfg.types or cfg.types[pt] in (None, "RESULT_UNIT"): fail("parameter type %s of %s" % (pt, name))
+        ln = env.fresh(pn)
+        env.declare(pn, hopaque(cfg.types[pt], ln))
+        lparams.append("(%s : %s)" % (ln, cfg.types[pt]))
+    ctx = HCtx(cfg, name, sk, lret)
+    def done(e2, v):
+        if v == HUNIT and lret != "Unit": fail("control reaches the end of %s without a value" % name)
+        return hresult(v, e2, ctx)
+    tree = hblock(stmts, env, ctx, done)
+    text = "/-- `%s::%s` -/\n" % (cfg.struct, name)
+    text += "def %s %s%s : %s :=\n%s\n" % (lean_name, binders, "".join(" " + q for q in lparams), ctx.full_ret(), hrender(tree, 1))
+    return text, sk, params, lret
+
+# =============================================================================================
+# fifth executor: the RUNNER (duckscript/src/runner.rs) — code that works on a WORLD through `&mut`
+# borrows and reacts to an enum with payloads.  It uses the parser of the fourth executor (extended
+# with `Enum::Variant(a, _, ref b)` patterns, `.parse::<i32>()`, `()`, `for x in &xs`).
+#
+# What is translated: (a) whole functions (`rn_translate_fn`), (b) ONE ITERATION of the `loop` of a
+# function together with the code after the loop (`rn_translate_step`): `break` continues with the
+# statements after the loop, falling off the end of the body is "next iteration".
+#
+#   statements   let [mut] x = e ;  let (a, b) = e ;  let (a, b) = if c { ..; (x, y) } else { break; } ;
+#                x = e ;  x += n ;  place = e ;   if / else if / else ;   if let PAT = e {..} [else {..}] [;]
+#                match e { PAT => {..} | PAT => stmt | expr , .. } [;]   (as statement, as the value of a
+#                `let`, as the value of an arm, as the value of the function)
+#                f(&mut a, b, ..) ;   map.insert(k, v) ;   map.remove(&k) ;   break ;   return e ;
+#                for x in &xs {..} (whole functions only; a fold over the vector, no break / return inside) ;
+#                let mut r = Struct::new(..) of a configured struct ;  r.untracked_field = e (dropped)
+#   patterns     Enum::Variant   Enum::Variant(x, _, ref y)   Some(x)  Some(ref x)  None  Ok(x)  Err(e)  _
+#   expressions  literals, locals, parameters, x.f.g, None Some(e) Ok(e) Err(e) () (a, b), Enum::Variant(e..),
+#                ScriptError::Runtime(msg, Some(meta)), format!("..{}..", e), vec![a, b], "s".to_string(),
+#                n.to_string(), o.unwrap_or(d), o.is_some() / is_none() / unwrap(), e.clone(), xs.len(),
+#                xs[i] (only under the test `xs.len() > i` / `i < xs.len()`), e + n, == != < > <= >=, ! && ||,
+#                s.parse::<i32>(), table.get(&k), Struct { f, g: e } of the invocation context
+#
+# How things are rendered (the CONFIGURATION says which Rust place is which component):
+#   * the WORLD is what the `&mut` borrows reach: the variables (`Vars`), and ONE value `st : σ` standing
+#     for everything else a command can touch (command table, command state, env) — all Rust places
+#     configured as "world" are the same Lean value, which is what the model's `CmdSem σ` says;
+#   * a call `f(&mut vars, &mut state, a, b)` of a configured function is `fGen sem vars st a b`; what it
+#     returns is the Rust result followed by the new variables / world (`match .. with | (r, vars2, st2) =>`),
+#     a `Result<(), String>` being an `Option Str` (`none` = `Ok(())`);
+#   * `commands.get_for_use(name)` followed (on EVERY path of the `Some(instance)` arm, exactly once)
+#     by `instance.run(CommandInvocationContext { arguments, output_variable, line, .. })` is ONE call of
+#     the parameter `sem name arguments output_variable line vars st` — `none` = no such command (the
+#     `None` arm), `some (result, vars2, st2)` = the command ran; statements of the arm before the
+#     `run` must be pure;
+#   * `match e { Enum::V(..) => .. }` on an opaque enum value → a Lean `match` with one arm per variant in
+#     the order of the configuration (`_` expanded, so reordered or spelled-out arms regenerate the same text);
+#   * `if xs.len() > i {A} else {B}` → `if h : i < xs.length then A else B`, and `xs[i]` inside A is
+#     `xs[i]'h`; `xs[i]` anywhere else is outside the subset (there is no panic outcome here);
+#   * the halt poll `runtime.env.halt.load(..)` as the condition of an `if` → `halt polls st`; on the
+#     `false` side the poll counter is one higher (`polls` = number of polls that answered `false`);
+#   * `table.get(&k)` on a configured table → `<lookup function> <table> k : Option _`;
+#   * `s.parse::<i32>()` → `parseI32 s : Option Int` (`Ok` = `some`); `format!` → concatenation, an
+#     `i32` shown by `intToStr`, a `usize` by `natToStr`;
+#   * a parameter can be FIXED in the configuration (`repl_mode = false`): the code is partially evaluated.
+# Leaves of a step: `.inl state` (next iteration) / `.inr (state, end)`; `return Err(ScriptError::Runtime(m,
+# Some(meta)))` is `.inr (state, .fail m meta)` with the state AT THAT POINT (so the order of effects
+# before an early return is visible).  A local declared before the loop (`end_reason`) must have its
+# initial value again at every `.inl` leaf (checked), so every iteration starts from the same values.
+# =============================================================================================
+
+class RnConfig:
+    def __init__(self, enums, fields, types, rets, callees, lookups, poll, invctx, fixed, world_ty="σ"):
+        """enums: Rust enum -> {"lean": type, "variants": [(rust, lean ctor | None, [payload Lean types], rust arity)]};
+        fields: (Lean type, Rust field) -> (Lean field, Lean type);
+        types: Rust parameter type -> ("vars",) | ("world",) | ("varsval",) | ("drop",) | ("val", Lean type);
+        rets: Rust return type -> ("unit",) | ("tuple", [Lean types]) | ("val", Lean type) | ("resunit", Lean type) | ("step",);
+        callees: Rust fn -> {"lean": name, "params": [(name, type)], "ret": Rust return type, "render": optional};
+        lookups: Rust path -> (Lean text applied to the key, Lean type of the value);
+        poll: (Rust path, method, Lean function); invctx: name of the invocation-context struct;
+        fixed: Rust parameter -> AST literal"""
+        self.enums, self.fields, self.types, self.rets, self.callees = enums, fields, types, rets, callees
+        self.lookups, self.poll, self.invctx, self.fixed, self.world_ty = lookups, poll, invctx, fixed, world_ty
+
+class RnCtx:
+    def __init__(self, cfg, fn_name, mode, ret):
+        self.cfg, self.fn_name, self.mode, self.ret = cfg, fn_name, mode, ret
+        self.names, self.places, self.in_loop, self.post, self.loop_locals = set(), {}, False, [], {}
+        self.state_keys = []            # which of "@vars", "@st" a function hands back
+        self.uses_sem = False
+        self.untracked, self.aux, self.lean_name, self.fold_state = set(), [], "", []
+    def fresh(self, rust_name):
+        base = camel(rust_name) or "x"
+        name, k = base, 1
+        while name in self.names:
+            k += 1; name = "%s%d" % (base, k)
+        self.names.add(name)
+        return name
+    def after(self):
+        c = RnCtx(self.cfg, self.fn_name, self.mode, self.ret)
+        c.__dict__.update(self.__dict__)
+        c.in_loop = False
+        return c
+
+def rn_opaque(ty, text):
+    if ty == "Nat": return ("nat", text, 0)
+    if ty == "Bool": return ("cond", ("b", text))
+    if ty == "Str": return ("str", [("e", text)])
+    if ty.startswith("Option "):
+        inner = ty[len("Option "):]
+        if inner.startswith("(") and inner.endswith(")"): inner = inner[1:-1]
+        return ("opt", inner, ("opaque", text))
+    return ("o", ty, text)
+
+def rn_type(v):
+    k = v[0]
+    if k == "o": return v[1]
+    if k == "opt":
+        t = v[1]
+        if t is None and v[2][0] == "some": t = rn_type(v[2][1])
+        return None if t is None else "Option %s" % _par(t)
+    if k == "list": return None if v[1] is None else "List %s" % _par(v[1])
+    if k in ("nat", "cond", "char", "str"): return ftype(v)
+    fail("a value of kind %s has no Lean type here" % k)
+
+def rn_str(v):
+    parts = []
+    for kind, x in v[1]:
+        if kind == "lit" and x == "": continue
+        if kind == "lit" and parts and parts[-1][0] == "lit": parts[-1] = ("lit", parts[-1][1] + x)
+        else: parts.append((kind, x))
+    if not parts: return "[]"
+    out = [lean_strlit(x) if kind == "lit" else x for kind, x in parts]
+    return " ++ ".join(_fpar(x) if len(out) > 1 else x for x in out)
+
+def rn_val(v):
+    k = v[0]
+    if k == "nat": return fnat(v)
+    if k == "cond": return fcond_bool(v[1])
+    if k == "str": return rn_str(v)
+    if k in ("o", "list"): return v[-1]
+    if k == "opt":
+        st = v[2]
+        if st[0] == "none": return "none"
+        if st[0] == "some": return "some %s" % _fpar(rn_val(st[1]))
+        return st[1]
+    if k == "tuple": return "(%s)" % ", ".join(rn_val(x) for x in v[1])
+    fail("a value of kind %s cannot be rendered" % k)
+
+def rn_path(e):
+    """`a.b.c` as a string, for locals / fields only"""
+    e = _strip_clone(e)
+    if e[0] == "id": return e[1]
+    if e[0] == "field":
+        b = rn_path(e[1])
+        return None if b is None else b + "." + e[2]
+    return None
+
+def rn_get(path, env, ctx):
+    cfg = ctx.cfg
+    if path in ctx.places: return env.vals[ctx.places[path]]
+    if path in env.vals: return env.vals[path]
+    if path in cfg.lookups: return ("table", path)
+    if "." in path:
+        base, f = path.rsplit(".", 1)
+        b = rn_get(base, env, ctx)
+        if b[0] == "o" and (b[1], f) in cfg.fields:
+            lf, lt = cfg.fields[(b[1], f)]
+            return rn_opaque(lt, "%s.%s" % (_fpar(b[2]), lf))
+        if b[0] == "ctxpath": return ("ctxpath", path)
+        fail("unknown field %s" % path)
+    if any(p.startswith(path + ".") for p in list(ctx.places) + list(cfg.lookups)): return ("ctxpath", path)
+    fail("unknown variable %s" % path)
+
+def rn_cmp(op, a, b):
+    if a[0] == "o" and a[1] == "Int" and b[0] == "nat" and b[1] is None:
+        x, y = a[2], str(b[2])
+        lop = {"==": "=", "!=": "≠", "<": "<", ">": ">", "<=": "≤", ">=": "≥"}[op]
+        if op == "!=": return ("not", ("p", "%s = %s" % (x, y), ("=", x, y)))
+        return ("p", "%s %s %s" % (x, lop, y), (lop, x, y))
+    if a[0] == "str" and b[0] == "str":
+        if op not in ("==", "!="): fail("ordering of strings")
+        x, y = rn_str(a), rn_str(b)
+        c = ("p", "%s = %s" % (x, y), ("=", x, y))
+        return ("not", c) if op == "!=" else c
+    return fcmp(op, a, b)
+
+def rn_eval(e, env, ctx, strict=True):
+    cfg = ctx.cfg
+    k = e[0]
+    if k == "symval": return e[1]
+    if k == "bool": return ("cond", T if e[1] else F)
+    if k == "num": return ("nat", None, e[1])
+    if k == "lit_str": return ("str", [("lit", e[1])])
+    if k == "none": return ("opt", None, ("none",))
+    if k == "some":
+        v = rn_eval(e[1], env, ctx, strict)
+        return ("opt", rn_type(v), ("some", v))
+    if k == "ok": return ("res_ok", rn_eval(e[1], env, ctx, strict))
+    if k == "errc": return ("res_err", rn_eval(e[1], env, ctx, strict))
+    if k == "tuple":
+        if not e[1]: return ("unit",)
+        return ("tuple", [rn_eval(x, env, ctx, strict) for x in e[1]])
+    if k in ("id", "field"):
+        path = rn_path(e)
+        if path is None: fail("unsupported field access")
+        return rn_get(path, env, ctx)
+    if k == "refmut": fail("`&mut` outside a call argument")
+    if k == "not":
+        v = rn_eval(e[1], env, ctx, strict)
+        if v[0] != "cond": fail("`!` of a non-boolean")
+        return ("cond", _cnot(v[1]))
+    if k == "index":
+        xs, i = rn_eval(e[1], env, ctx, strict), rn_eval(e[2], env, ctx, strict)
+        if xs[0] != "o" or not xs[1].startswith("List ") or i[0] != "nat": fail("unsupported indexing")
+        h = env.vals.get(("lenfact", xs[2], fnat(i)))
+        if h is None: fail("`xs[i]` outside a test `xs.len() > i` (there is no panic outcome in this translation)")
+        return rn_opaque(xs[1][len("List "):], "%s[%s]'%s" % (_fpar(xs[2]), fnat(i), h))
+    if k == "bin":
+        op = e[1]
+        if op in ("&&", "||"):
+            a, b = rn_eval(e[2], env, ctx, strict), rn_eval(e[3], env, ctx, False)
+            if a[0] != "cond" or b[0] != "cond": fail("`%s` of non-booleans" % op)
+            return ("cond", _cand(a[1], b[1]) if op == "&&" else _cor(a[1], b[1]))
+        a, b = rn_eval(e[2], env, ctx, strict), rn_eval(e[3], env, ctx, strict)
+        if op == "+":
+            if a[0] != "nat" or b[0] != "nat" or b[1] is not None: fail("unsupported arithmetic")
+            return ("nat", a[1], a[2] + b[2])
+        if op == "-": fail("subtraction is outside the subset of the fifth executor")
+        return ("cond", rn_cmp(op, a, b))
+    if k == "macro":
+        if e[1] == "vec":
+            vals = [rn_eval(a, env, ctx, strict) for a in e[2]]
+            ts = set(rn_type(v) for v in vals)
+            if len(ts) > 1: fail("vec! of different types")
+            return ("list", ts.pop() if ts else None, "[%s]" % ", ".join(rn_val(v) for v in vals))
+        if e[1] == "format":
+            if not e[2] or e[2][0][0] != "lit_str": fail("format! without a literal")
+            chunks, args = e[2][0][1].split("{}"), e[2][1:]
+            if len(chunks) != len(args) + 1 or "{" in "".join(chunks): fail("unsupported format string")
+            pieces = []
+            for i, ch in enumerate(chunks):
+                pieces.append(("lit", ch))
+                if i < len(args): pieces += rn_show(rn_eval(args[i], env, ctx, strict))
+            return ("str", pieces)
+        fail("unsupported macro %s!" % e[1])
+    if k in ("path", "pathcall"):
+        en, vn, args = e[1], e[2], (e[3] if k == "pathcall" else [])
+        if en == "ScriptError" and vn == "Runtime" and len(args) == 2:
+            m, mi = rn_eval(args[0], env, ctx, strict), rn_eval(args[1], env, ctx, strict)
+            if m[0] != "str" or mi[0] != "opt" or mi[2][0] != "some" or rn_type(mi[2][1]) != "Meta":
+                fail("ScriptError::Runtime(..) needs a text and Some(meta info)")
+            return ("scripterr", m, mi[2][1])
+        if en in cfg.enums:
+            for rv, lv, tys, arity in cfg.enums[en]["variants"]:
+                if rv == vn:
+                    if lv is None or arity != len(tys) or len(args) != arity: fail("the variant %s::%s cannot be built here" % (en, vn))
+                    vals = [rn_eval(a, env, ctx, strict) for a in args]
+                    for v, t in zip(vals, tys):
+                        vt = rn_type(v)
+                        if vt is not None and vt != t: fail("%s::%s(..) of a %s" % (en, vn, vt))
+                    return ("o", cfg.enums[en]["lean"], " ".join(["." + lv] + [_fpar(rn_val(v)) for v in vals]))
+            fail("unknown variant %s::%s" % (en, vn))
+        if en == "String" and vn == "new" and not args: return ("str", [])
+        fail("unsupported path %s::%s" % (en, vn))
+    if k == "struct":
+        if e[1] != cfg.invctx: fail("unsupported struct literal %s" % e[1])
+        return ("invctx", {f: (rn_path(x), x) for f, x in e[2]})
+    if k == "call": return rn_call(e, env, ctx, strict)
+    if k == "method": return rn_method(e, env, ctx, strict)
+    fail("unsupported expression %r" % (k,))
+
+def rn_show(v):
+    """the pieces `{}` shows a value as"""
+    if v[0] == "str": return list(v[1])
+    if v[0] == "nat": return [("e", "natToStr %s" % _fpar(fnat(v)))]
+    if v[0] == "o" and v[1] == "Int": return [("e", "intToStr %s" % _fpar(v[2]))]
+    fail("a value of kind %s cannot be shown" % v[0])
+
+def rn_place_of(a, ctx, kind):
+    """the state key an argument `&mut place` / `place` (a reborrow) stands for"""
+    inner = a[1] if a[0] == "refmut" else a
+    path = rn_path(inner)
+    if path is None or path not in ctx.places: fail("a %s argument must be one of the configured places" % kind)
+    key = ctx.places[path]
+    if key != {"vars": "@vars", "varsval": "@vars", "world": "@st"}[kind]: fail("the place %s is not a %s" % (path, kind))
+    return key
+
+def rn_call(e, env, ctx, strict):
+    cfg = ctx.cfg
+    name, args = e[1], e[2]
+    if name not in cfg.callees: fail("call of the unknown function %s" % name)
+    if not strict: fail("a call in a short-circuited operand")
+    cal = cfg.callees[name]
+    if len(args) != len(cal["params"]): fail("wrong number of arguments in a call of %s" % name)
+    vals, mut_vars, world = [], False, False
+    for (pn, pt), a in zip(cal["params"], args):
+        if pt not in cfg.types: fail("parameter type %s of %s" % (pt, name))
+        role = cfg.types[pt]
+        if role[0] == "drop": continue
+        if role[0] in ("vars", "varsval", "world"):
+            rn_place_of(a, ctx, role[0])
+            if role[0] == "vars": mut_vars = True
+            if role[0] == "world": world = True
+            continue
+        v = rn_eval(a, env, ctx, strict)
+        vt = rn_type(v)
+        if vt is not None and vt != role[1]: fail("argument %s of %s has the type %s, not %s" % (pn, name, vt, role[1]))
+        vals.append((pn, _fpar(rn_val(v))))
+    reads_vars = any(cfg.types[pt][0] in ("vars", "varsval") for pn, pt in cal["params"])
+    if "render" in cal:
+        text = cal["render"](dict(vals), rn_val(env.vals["@vars"]) if reads_vars else None)
+    else:
+        parts = [cal["lean"]]
+        if world:
+            parts.append("sem"); ctx.uses_sem = True
+        if reads_vars: parts.append(_fpar(rn_val(env.vals["@vars"])))
+        if world: parts.append(_fpar(rn_val(env.vals["@st"])))
+        text = " ".join(parts + [x for _, x in vals])
+    ret = cfg.rets.get(cal["ret"])
+    if ret is None: fail("return type %s of %s" % (cal["ret"], name))
+    comps = []                                   # (hint, Lean type | "@vars" | "@st")
+    if ret[0] == "tuple": comps += [("r", t) for t in ret[1]]
+    elif ret[0] in ("val", "resunit"): comps.append(("r", ret[1]))
+    elif ret[0] != "unit": fail("a call of a function returning %s" % cal["ret"])
+    if mut_vars: comps.append(("vars", "@vars"))
+    if world: comps.append(("st", "@st"))
+    if len(comps) == 1:
+        if comps[0][1] == "@vars":
+            env.vals["@vars"] = ("o", "Vars", text); return ("unit",)
+        if comps[0][1] == "@st": fail("a call that only changes the world")
+        return rn_opaque(comps[0][1], text)
+    raise _Guard(("calltuple", text, comps, ret, e))
+
+def rn_method(e, env, ctx, strict):
+    cfg = ctx.cfg
+    recv, m, args = e[1], e[2], e[3]
+    if m in ("clone", "to_owned", "as_str", "as_ref") and not args:
+        return rn_eval(recv, env, ctx, strict)
+    path = rn_path(recv)
+    if path is not None and cfg.poll and (path, m) == cfg.poll[:2]:
+        fail("the halt poll anywhere but as the condition of an `if`")
+    if path in cfg.lookups and m == "get" and len(args) == 1:
+        kv = rn_eval(args[0], env, ctx, strict)
+        if kv[0] != "str": fail("table lookup with a key that is not a text")
+        fn, vt = cfg.lookups[path]
+        return ("opt", vt, ("opaque", "%s %s" % (fn, _fpar(rn_str(kv)))))
+    if path in ctx.places and ctx.places[path] == "@st" and m == "get_for_use" and len(args) == 1:
+        kv = rn_eval(args[0], env, ctx, strict)
+        if kv[0] != "str": fail("get_for_use of something that is not a text")
+        return ("cmdlookup", rn_str(kv))
+    if path in ctx.places and ctx.places[path] == "@table" and m == "insert" and len(args) == 2:
+        if not strict: fail("a map update in a short-circuited operand")
+        kv, vv = rn_eval(args[0], env, ctx, strict), rn_eval(args[1], env, ctx, strict)
+        if kv[0] != "str" or vv[0] != "nat": fail("unsupported insert into the table")
+        env.vals["@table"] = ("o", rn_type(env.vals["@table"]), "tableInsert %s %s %s" % (_fpar(rn_val(env.vals["@table"])), _fpar(rn_str(kv)), _fpar(fnat(vv))))
+        return ("unit",)
+    if path in ctx.places and ctx.places[path] == "@vars" and m in ("insert", "remove"):
+        if not strict: fail("a map update in a short-circuited operand")
+        vals = [rn_eval(a, env, ctx, strict) for a in args]
+        if [v[0] for v in vals] != ["str"] * (2 if m == "insert" else 1): fail("unsupported %s" % m)
+        cur = _fpar(rn_val(env.vals["@vars"]))
+        env.vals["@vars"] = ("o", "Vars", "Vars.%s %s %s" % ("set" if m == "insert" else "erase", cur, " ".join(_fpar(rn_str(v)) for v in vals)))
+        return ("unit",)
+    r = rn_eval(recv, env, ctx, strict)
+    if r[0] == "cmdinst" and m == "run" and len(args) == 1:
+        if not strict: fail("a command run in a short-circuited operand")
+        a = rn_eval(args[0], env, ctx, strict)
+        if a[0] != "invctx": fail("run(..) of something that is not the invocation context")
+        raise _Guard(("run", r, a, path, e))
+    if r[0] == "cmdinst_used": fail("a command instance run twice")
+    if r[0] == "opt":
+        st = r[2]
+        if m in ("is_none", "is_some") and not args:
+            c = T if st[0] == "none" else F if st[0] == "some" else ("b", "%s.isNone" % _fpar(st[1]))
+            return ("cond", c if m == "is_none" else _cnot(c))
+        if m == "unwrap" and not args:
+            if st[0] == "some": return st[1]
+            fail("unwrap() of an option not known to be Some (there is no panic outcome in this translation)")
+        if m == "unwrap_or" and len(args) == 1:
+            d = rn_eval(args[0], env, ctx, strict)
+            if st[0] == "some": return st[1]
+            if st[0] == "none": return d
+            return rn_opaque(r[1], "%s.getD %s" % (_fpar(st[1]), _fpar(rn_val(d))))
+        fail("unsupported method .%s of an Option" % m)
+    if r[0] == "str":
+        if m in ("to_string", "to_owned") and not args: return r
+        if m == "parse::<i32>" and not args: return ("resopt", "Int", "parseI32 %s" % _fpar(rn_str(r)))
+        fail("unsupported method .%s of a text" % m)
+    if r[0] == "nat":
+        if m == "to_string" and not args: return ("str", rn_show(r))
+        fail("unsupported method .%s of an integer" % m)
+    if r[0] == "o" and r[1].startswith("List "):
+        if m == "len" and not args: return ("nat", "%s.length" % _fpar(r[2]), 0)
+        fail("unsupported method .%s of a vector" % m)
+    fail("unsupported method .%s" % m)
+
+# ------------------------------------------------------------------ execution of the fifth executor
+
+def rn_state(env, ctx):
+    if ctx.mode == "step":
+        return "{ line := %s, polls := %s, vars := %s, st := %s }" % tuple(rn_val(env.vals[k]) for k in ("@line", "@polls", "@vars", "@st"))
+    return [rn_val(env.vals[k]) for k in ctx.state_keys]
+
+def rn_check_leaf(env, ctx):
+    for n, v in env.vals.items():
+        if isinstance(v, tuple) and v and v[0] == "cmdinst":
+            fail("a command instance is looked up but not run on some path")
+
+def rn_fold_key(tgt, ctx):
+    return ctx.places.get(tgt, tgt)
+
+def rn_next(env, ctx):
+    rn_check_leaf(env, ctx)
+    if ctx.mode == "fold":
+        vals = [rn_val(env.vals[rn_fold_key(t_, ctx)]) for t_ in ctx.fold_state]
+        return ("leaf", vals[0] if len(vals) == 1 else "(%s)" % ", ".join(vals))
+    for n, v0 in ctx.loop_locals.items():
+        if env.vals.get(n) != v0: fail("the local %s, declared before the loop, is changed by an iteration that goes on" % n)
+    return ("leaf", ".inl %s" % rn_state(env, ctx))
+
+def rn_result(e, env, ctx):
+    if e[0] == "ifexpr": return rn_exec([e[1]], env, ctx)
+    if e[0] == "matchexpr": return rn_exec([("match", e[1], e[2])], env, ctx)
+    v = rn_eval(e, env, ctx)
+    return rn_result_val(v, env, ctx)
+
+def rn_result_val(v, env, ctx):
+    rn_check_leaf(env, ctx)
+    if ctx.mode == "step":
+        if v[0] == "res_ok" and v[1][0] == "tuple" and len(v[1][1]) == 2 and v[1][1][0][0] == "ctxpath" and rn_type(v[1][1][1]) == "RunEnd":
+            return ("leaf", ".inr (%s, %s)" % (rn_state(env, ctx), rn_val(v[1][1][1])))
+        if v[0] == "res_err" and v[1][0] == "scripterr":
+            return ("leaf", ".inr (%s, .fail %s %s)" % (rn_state(env, ctx), _fpar(rn_str(v[1][1])), _fpar(rn_val(v[1][2]))))
+        fail("unsupported result of the loop's function")
+    ret = ctx.ret
+    comps = []
+    if ret[0] == "unit":
+        # a unit function cannot end in a value: a pure one here is the thrown-away value of a `match .. ;`
+        if v[0] not in ("unit",) + RN_PURE: fail("a value returned from a unit function")
+    elif ret[0] == "tuple":
+        if v[0] != "tuple" or len(v[1]) != len(ret[1]): fail("the result is not a tuple of the right size")
+        for x, t in zip(v[1], ret[1]):
+            xt = rn_type(x)
+            if xt is not None and xt != t: fail("a result component has the type %s, not %s" % (xt, t))
+            comps.append(rn_val(x))
+    elif ret[0] == "resunit":
+        if v[0] == "res_ok" and v[1][0] == "unit": comps.append("none")
+        elif v[0] == "res_err" and v[1][0] == "str": comps.append("some %s" % _fpar(rn_str(v[1])))
+        else: fail("unsupported result of a Result<(), String> function")
+    elif ret[0] == "val":
+        xt = rn_type(v)
+        if xt is not None and xt != ret[1]: fail("the result has the type %s, not %s" % (xt, ret[1]))
+        comps.append(rn_val(v))
+    elif ret[0] == "place":
+        # the function returns a struct of which ONE field is modelled
+        if v[0] != "ctxpath" or ctx.places.get(v[1] + "." + ret[3]) != ret[1]: fail("the result is not the struct holding %s" % ret[3])
+        comps.append(rn_val(env.vals[ret[1]]))
+    comps += rn_state(env, ctx)
+    return ("leaf", comps[0] if len(comps) == 1 else "(%s)" % ", ".join(comps))
+
+def rn_exec(stmts, env, ctx):
+    if not stmts:
+        if ctx.in_loop: return rn_next(env, ctx)
+        if ctx.mode == "fn" and ctx.ret[0] == "unit": return rn_result_val(("unit",), env, ctx)
+        fail("control reaches the end of %s without a result" % ctx.fn_name)
+    s, rest = stmts[0], stmts[1:]
+    env0 = env.copy()
+    try:
+        return rn_exec1(s, rest, env.copy(), ctx)
+    except _Guard as g:
+        w = g.what
+        env = env0
+        if w[0] == "calltuple":
+            text, comps, ret, ex = w[1], w[2], w[3], w[4]
+            hints = None
+            if s[0] == "let" and s[3] is ex and s[1][0] == "ptuple" and ret[0] == "tuple" and len(s[1][1]) == len(ret[1]): hints = s[1][1]
+            pats, vals = [], []
+            for i, (hint, t) in enumerate(comps):
+                if t in ("@vars", "@st"):
+                    var = ctx.fresh(hint)
+                    env.vals[t] = ("o", "Vars" if t == "@vars" else ctx.cfg.world_ty, var)
+                else:
+                    var = ctx.fresh(hints[i] if hints else hint)
+                    if ret[0] == "resunit": vals.append(("resunit", "Str", var))
+                    else: vals.append(rn_opaque(t, var))
+                pats.append(var)
+            value = ("unit",) if not vals else vals[0] if ret[0] != "tuple" else ("tuple", vals)
+            return ("matchtuple", text, "(%s)" % ", ".join(pats), rn_exec([_subst(s, ex, ("symval", value))] + rest, env, ctx))
+        if w[0] == "run":
+            inst, a, ipath, ex = w[1], w[2], w[3], w[4]
+            text = rn_sem_call(inst, a, env, ctx)
+            r, vars2, st2 = ctx.fresh("result"), ctx.fresh("vars"), ctx.fresh("st")
+            none_stmts, none_env, none_ctx = inst[2]
+            t_none = rn_exec(none_stmts, none_env.copy(), none_ctx)
+            env.vals["@vars"], env.vals["@st"] = ("o", "Vars", vars2), ("o", ctx.cfg.world_ty, st2)
+            for n, v in list(env.vals.items()):
+                if v is inst: env.vals[n] = ("cmdinst_used",)
+            t_some = rn_exec([_subst(s, ex, ("symval", ("o", "CmdResult", r)))] + rest, env, ctx)
+            return ("matchsem", text, "(%s, %s, %s)" % (r, vars2, st2), t_some, t_none)
+        raise
+
+def rn_sem_call(inst, a, env, ctx):
+    """`instance.run(CommandInvocationContext { .. })` as a call of the parameter `sem`"""
+    fields = a[1]
+    want = {"state": "@st", "commands": "@st", "env": "@st", "variables": "@vars"}
+    if sorted(fields) != sorted(list(want) + ["arguments", "output_variable", "instructions", "line"]):
+        fail("unexpected fields of the invocation context: %s" % sorted(fields))
+    for f, key in want.items():
+        p = fields[f][0]
+        if p is None or ctx.places.get(p) != key: fail("the field %s of the invocation context is not the %s" % (f, "world" if key == "@st" else "variables"))
+    ins = rn_eval(fields["instructions"][1], env, ctx)
+    if not (ins[0] == "dropped" or (ins[0] == "o" and ins[1] == "List Instruction")): fail("the field instructions of the invocation context")
+    args = rn_eval(fields["arguments"][1], env, ctx)
+    out = rn_eval(fields["output_variable"][1], env, ctx)
+    line = rn_eval(fields["line"][1], env, ctx)
+    if rn_type(args) not in (None, "List Str") or out[0] != "opt" or rn_type(out) not in (None, "Option Str") or line[0] != "nat":
+        fail("ill-typed invocation context")
+    ctx.uses_sem = True
+    return "sem %s %s %s %s %s %s" % (_fpar(inst[1]), _fpar(rn_val(args)), _fpar(rn_val(out)), _fpar(fnat(line)),
+                                     _fpar(rn_val(env.vals["@vars"])), _fpar(rn_val(env.vals["@st"])))
+
+def rn_assign(path, v, env, ctx):
+    if path in ctx.places:
+        key = ctx.places[path]
+        old = env.vals[key]
+        if v[0] in ("o", "nat") and rn_type(v) == rn_type(old):
+            env.vals[key] = v; return
+        fail("ill-typed assignment to %s" % path)
+    if "." in path or path not in env.vals: fail("assignment to the unknown %s" % path)
+    old = env.vals[path]
+    if v[0] in ("res_ok", "res_err", "cmdlookup", "cmdinst", "invctx", "resopt", "resunit", "unit"): fail("unsupported assignment to %s" % path)
+    to, tn = (rn_type(old) if old[0] not in ("scripterr", "tuple") else old[0]), (rn_type(v) if v[0] not in ("scripterr", "tuple") else v[0])
+    if to is not None and tn is not None and to != tn: fail("ill-typed assignment to %s (%s := %s)" % (path, to, tn))
+    if tn is None and to is not None and v[0] == "opt": v = ("opt", old[1], v[2])
+    env.vals[path] = v
+
+RN_PURE = ("opt", "str", "nat", "cond", "o", "list")
+
+def _rn_diverges(block):
+    return bool(block) and block[-1][0] in ("break", "return")
+
+def rn_exec1(s, rest, env, ctx):
+    cfg = ctx.cfg
+    k = s[0]
+    if k == "let":
+        pat, e = s[1], s[3]
+        if e[0] == "ifexpr":
+            def tail(block):
+                if block is None: fail("`if` expression without `else`")
+                if len(block) == 1 and block[0][0] in ("if", "iflet"): return [_lift_if(block[0], tail)]
+                if _rn_diverges(block): return list(block)
+                if not block or block[-1][0] != "expr": fail("`if` expression without a value")
+                return list(block[:-1]) + [("let", pat, s[2], block[-1][1])]
+            return rn_exec([_lift_if(e[1], tail)] + rest, env, ctx)
+        if e[0] == "matchexpr":
+            arms = [(p_, rn_arm_tail(b, lambda x: ("let", pat, s[2], x))) for p_, b in e[2]]
+            return rn_exec([("match", e[1], arms)] + rest, env, ctx)
+        news = getattr(cfg, "news", {})
+        if e[0] == "pathcall" and e[2] == "new" and e[1] in news and pat[0] == "pid":
+            # `let mut runtime = Runtime::new(..)`: the modelled fields get their initial values, the rest is not tracked
+            for f, (key, ty, init) in news[e[1]]["fields"].items():
+                ctx.places["%s.%s" % (pat[1], f)] = key
+                env.vals[key] = ("o", ty, init)
+            for f in news[e[1]]["untracked"]: ctx.untracked.add("%s.%s" % (pat[1], f))
+            return rn_exec(rest, env, ctx)
+        v = rn_eval(e, env, ctx)
+        if pat[0] == "ptuple":
+            if v[0] != "tuple" or len(v[1]) != len(pat[1]): fail("`let (..) =` of something that is not a tuple of that size")
+            for n, x in zip(pat[1], v[1]): rn_declare(n, x, env, ctx)
+        else:
+            if v[0] in ("res_ok", "res_err", "unit", "resopt", "resunit", "cmdlookup"): fail("a value of kind %s kept in a local" % v[0])
+            rn_declare(pat[1], v, env, ctx)
+        return rn_exec(rest, env, ctx)
+    if k == "assign":
+        name, op, rhs = s[1], s[2], s[3]
+        # the fourth parser keeps `a.b` only; longer places come as an expression statement (below)
+        if op == "=" and rhs[0] == "matchexpr":
+            arms = [(p_, rn_arm_tail(b, lambda x: ("assign", name, "=", x))) for p_, b in rhs[2]]
+            return rn_exec([("match", rhs[1], arms)] + rest, env, ctx)
+        if name in ctx.untracked and op == "=":
+            return rn_exec(rest, env, ctx)            # a field the model does not have (`runtime.instructions = ..`)
+        if op == "-=": fail("`-=` is outside the subset of the fifth executor")
+        if op == "+=":
+            return rn_exec([("assign", name, "=", ("bin", "+", _lv_expr(name), rhs))] + rest, env, ctx)
+        rn_assign(name, rn_eval(rhs, env, ctx), env, ctx)
+        return rn_exec(rest, env, ctx)
+    if k == "exprstmt" or (k == "expr" and (rest or ctx.in_loop)):
+        v = rn_eval(s[1], env, ctx)
+        if v[0] not in ("unit",) + RN_PURE: fail("an expression statement without an effect the subset knows")
+        return rn_exec(rest, env, ctx)                 # a pure value that is thrown away (`None => None,` … `;`)
+    if k == "if":
+        cond = s[1]
+        neg, c0 = False, cond
+        while c0[0] == "not": neg, c0 = not neg, c0[1]
+        then_, else_ = (s[3] or [], s[2]) if neg else (s[2], s[3] or [])
+        if c0[0] == "method" and cfg.poll and (rn_path(c0[1]), c0[2]) == cfg.poll[:2]:
+            polls = env.vals["@polls"]
+            e_false = env.copy()
+            e_false.vals["@polls"] = ("nat", polls[1], polls[2] + 1)
+            c = ("b", "%s %s %s" % (cfg.poll[2], _fpar(fnat(polls)), _fpar(rn_val(env.vals["@st"]))))
+            return ("ite", c, rn_exec(list(then_) + rest, env.copy(), ctx), rn_exec(list(else_) + rest, e_false, ctx))
+        if c0[0] == "bin" and c0[1] in (">", "<"):
+            big, small = (c0[2], c0[3]) if c0[1] == ">" else (c0[3], c0[2])
+            if big[0] == "method" and big[2] == "len" and not big[3]:
+                xs, i = rn_eval(big[1], env, ctx), rn_eval(small, env, ctx)
+                if xs[0] == "o" and xs[1].startswith("List ") and i[0] == "nat":
+                    h = ctx.fresh("h")
+                    e_then = env.copy()
+                    e_then.vals[("lenfact", xs[2], fnat(i))] = h
+                    return ("dite", h, "%s < %s.length" % (fnat(i), _fpar(xs[2])),
+                            rn_exec(list(then_) + rest, e_then, ctx), rn_exec(list(else_) + rest, env.copy(), ctx))
+        if c0[0] == "method" and c0[2] in ("is_none", "is_some") and not c0[3]:
+            p = rn_path(c0[1])
+            if p is not None and p in env.vals and env.vals[p][0] == "opt" and env.vals[p][2][0] == "opaque":
+                v = env.vals[p]
+                some_b, none_b = (then_, else_) if c0[2] == "is_some" else (else_, then_)
+                var = ctx.fresh("v")
+                e_some, e_none = env.copy(), env.copy()
+                e_some.vals[p] = ("opt", v[1], ("some", rn_opaque(v[1], var)))
+                e_none.vals[p] = ("opt", v[1], ("none",))
+                return ("matchopt", v[2][1], var, rn_exec(list(some_b) + rest, e_some, ctx), rn_exec(list(none_b) + rest, e_none, ctx))
+        c = rn_eval(c0, env, ctx)
+        if c[0] != "cond": fail("non-boolean condition")
+        if c[1] == T: return rn_exec(list(then_) + rest, env, ctx)
+        if c[1] == F: return rn_exec(list(else_) + rest, env, ctx)
+        return ("ite", c[1], rn_exec(list(then_) + rest, env.copy(), ctx), rn_exec(list(else_) + rest, env.copy(), ctx))
+    if k == "iflet":
+        return rn_match(s[2], [(s[1], s[3]), (("pwild",), s[4] or [])], rest, env, ctx)
+    if k == "match":
+        return rn_match(s[1], s[2], rest, env, ctx)
+    if k == "foreach":
+        return rn_foreach(s, rest, env, ctx)
+    if k == "break":
+        if ctx.mode == "fold": fail("`break` inside a `for x in xs`")
+        if not ctx.in_loop: fail("`break` outside the loop")
+        return rn_exec(list(ctx.post), env, ctx.after())
+    if k == "return":
+        if ctx.mode == "fold": fail("`return` inside a `for x in xs`")
+        return rn_result(s[1], env, ctx)
+    if k == "expr":
+        return rn_result(s[1], env, ctx)
+    fail("unsupported statement %r" % (k,))
+
+def rn_foreach(s, rest, env, ctx):
+    """`for x in &xs { body }`  →  `match List.foldl <fn>BodyGen <state> xs with | (a, b) => …`: the STATE is the
+    tuple of the locals / places the body assigns (integers first, then by first assignment); the body becomes a
+    definition of its own, `fun state x => state'`; `break` / `return` inside are outside the subset"""
+    if ctx.mode != "fn" or ctx.in_loop: fail("`for x in xs` only at the top level of a function")
+    xs = rn_eval(s[2], env, ctx)
+    if xs[0] != "o" or not xs[1].startswith("List "): fail("`for x in xs` over something that is not a vector")
+    elem_ty = xs[1][len("List "):]
+    targets = []
+    for tname in fassigned(s[3], []):
+        if tname.endswith(".*"): fail("a `&mut` call inside a `for x in xs`")
+        if (tname in ctx.places or tname in env.vals) and tname not in targets: targets.append(tname)
+    if not targets: fail("a loop that assigns nothing")
+    entry = [env.vals[rn_fold_key(t_, ctx)] for t_ in targets]
+    types = [rn_type(v) for v in entry]
+    if None in types: fail("the type of a loop local cannot be inferred")
+    order = sorted(range(len(targets)), key=lambda i: (0 if types[i] == "Nat" else 1, i))
+    targets, entry, types = [targets[i] for i in order], [entry[i] for i in order], [types[i] for i in order]
+    benv = env.copy()
+    for i, (t_, ty) in enumerate(zip(targets, types)):
+        benv.vals[rn_fold_key(t_, ctx)] = rn_opaque(ty, fproj("s", i, len(targets)))
+    x = ctx.fresh((s[1][0] if isinstance(s[1], list) else s[1]))
+    benv.declare((s[1][0] if isinstance(s[1], list) else s[1]), rn_opaque(elem_ty, x))
+    bctx = ctx.after()
+    bctx.mode, bctx.in_loop, bctx.fold_state = "fold", True, targets
+    tree = rn_exec(list(s[3]), benv, bctx)
+    sty = " × ".join(_par(ty) if "×" in ty else ty for ty in types)
+    bname = ctx.lean_name[:-3] + "BodyGen" if ctx.lean_name.endswith("Gen") else ctx.lean_name + "Body"
+    ctx.aux.append("/-- one iteration of the `for %s in ..` of `%s`; the state `s` = (%s) -/\ndef %s (s : %s) (%s : %s) :\n    %s :=\n%s\n\n"
+                   % ((s[1][0] if isinstance(s[1], list) else s[1]), ctx.fn_name, ", ".join(targets), bname, sty, x, elem_ty, sty, rn_render(tree, 1)))
+    init = [rn_val(v) for v in entry]
+    pats = []
+    for t_, ty in zip(targets, types):
+        var = ctx.fresh(t_.split(".")[-1])
+        pats.append(var)
+        env.vals[rn_fold_key(t_, ctx)] = rn_opaque(ty, var)
+    call = "List.foldl %s %s %s" % (bname, init[0] if len(init) == 1 else "(%s)" % ", ".join(init), _fpar(xs[2]))
+    after = rn_exec(rest, env, ctx)
+    text = rn_render(after, 0)
+    pats = [v if re.search(r"(?<![\w.'])%s(?![\w'])" % re.escape(v), text) else "_" for v in pats]
+    return ("matchtuple", call, pats[0] if len(pats) == 1 else "(%s)" % ", ".join(pats), after)
+
+def rn_arm_tail(body, mk):
+    """an arm used as a value: its last expression becomes `mk(expr)`; a `match` / `if` in last
+    position is entered; an arm that leaves stays"""
+    if body and body[-1][0] == "expr": return list(body[:-1]) + [mk(body[-1][1])]
+    if body and body[-1][0] in ("return", "break"): return list(body)
+    if body and body[-1][0] == "match":
+        return list(body[:-1]) + [("match", body[-1][1], [(p_, rn_arm_tail(b, mk)) for p_, b in body[-1][2]])]
+    if body and body[-1][0] == "if" and body[-1][3] is not None:
+        return list(body[:-1]) + [("if", body[-1][1], rn_arm_tail(body[-1][2], mk), rn_arm_tail(body[-1][3], mk))]
+    if body and body[-1][0] == "iflet" and body[-1][4] is not None:
+        return list(body[:-1]) + [("iflet", body[-1][1], body[-1][2], rn_arm_tail(body[-1][3], mk), rn_arm_tail(body[-1][4], mk))]
+    fail("a match arm without a value")
+
+def rn_declare(name, v, env, ctx):
+    if name in ctx.places: fail("the place %s declared again" % name)
+    env.declare(name, v)
+
+def rn_match(scrut, arms, rest, env, ctx):
+    cfg = ctx.cfg
+    inner = _strip_clone(scrut)
+    v = rn_eval(inner, env, ctx)
+    path = rn_path(inner)
+    def arm(kind):
+        for p_, b in arms:
+            if p_[0] == kind or p_[0] == "pwild": return p_, b
+        fail("the match does not cover %s" % kind)
+    if v[0] == "cmdlookup":
+        p_, b = arm("psome")
+        if p_[0] != "psome": fail("the looked-up command must be bound")
+        np_, nb = arm("pnone")
+        e_some = env.copy()
+        inst = ("cmdinst", v[1], (list(nb) + rest, env.copy(), ctx))
+        e_some.declare(p_[1], inst)
+        return rn_exec(list(b) + rest, e_some, ctx)
+    if v[0] in ("resopt", "resunit"):
+        # Result as an option: resopt — Ok = some;  resunit (Result<(), String>) — Err = some
+        some_k, none_k = ("pok", "perr") if v[0] == "resopt" else ("perr", "pok")
+        p_, b = arm(some_k)
+        np_, nb = arm(none_k)
+        if np_[0] == none_k and v[0] == "resopt" and np_[1] != "_": fail("the error of parse() is not modelled")
+        var = ctx.fresh(p_[1] if p_[0] == some_k and p_[1] != "_" else "v")
+        e_some = env.copy()
+        if p_[0] == some_k and p_[1] != "_": e_some.declare(p_[1], rn_opaque(v[1], var))
+        return ("matchopt", v[2], var, rn_exec(list(b) + rest, e_some, ctx), rn_exec(list(nb) + rest, env.copy(), ctx))
+    if v[0] == "opt":
+        st = v[2]
+        if st[0] == "none": return rn_exec(list(arm("pnone")[1]) + rest, env, ctx)
+        p_, b = arm("psome")
+        if st[0] == "some":
+            e2 = env.copy()
+            if p_[0] == "psome" and p_[1] != "_": e2.declare(p_[1], st[1])
+            return rn_exec(list(b) + rest, e2, ctx)
+        var = ctx.fresh(p_[1] if p_[0] == "psome" and p_[1] != "_" else "v")
+        e_some, e_none = env.copy(), env.copy()
+        inner_v = rn_opaque(v[1], var)
+        if path is not None and path in env.vals:
+            e_some.vals[path] = ("opt", v[1], ("some", inner_v))
+            e_none.vals[path] = ("opt", v[1], ("none",))
+        if p_[0] == "psome" and p_[1] != "_": e_some.declare(p_[1], inner_v)
+        return ("matchopt", st[1], var, rn_exec(list(b) + rest, e_some, ctx), rn_exec(list(arm("pnone")[1]) + rest, e_none, ctx))
+    if v[0] == "o":
+        en = [n for n, info in cfg.enums.items() if info["lean"] == v[1]]
+        if not en: fail("`match` on a value of type %s" % v[1])
+        en = en[0]
+        if v[2].startswith("."): fail("`match` on a constructor")
+        out = []
+        for rv, lv, tys, arity in cfg.enums[en]["variants"]:
+            found = None
+            for p_, b in arms:
+                if p_[0] == "pwild" or (p_[0] == "penum" and p_[1] == en and p_[2] == rv):
+                    found = (p_, b); break
+                if p_[0] not in ("pwild", "penum") or (p_[0] == "penum" and p_[1] != en): fail("a pattern of another type in a match on %s" % en)
+            if found is None: fail("the match does not cover %s::%s" % (en, rv))
+            if lv is None: continue                # a variant the model does not have (cannot arise here)
+            p_, b = found
+            e2 = env.copy()
+            names = []
+            if p_[0] == "penum":
+                if len(p_[3]) != arity: fail("pattern %s::%s with %d fields" % (en, rv, len(p_[3])))
+                if arity != len(tys):
+                    if any(x != "_" for x in p_[3]): fail("the payload of %s::%s cannot be bound" % (en, rv))
+                    names = ["_"] * len(tys)
+                else:
+                    for x, t in zip(p_[3], tys):
+                        if x == "_": names.append("_")
+                        else:
+                            var = ctx.fresh(x); names.append(var)
+                            e2.declare(x, rn_opaque(t, var))
+            else:
+                names = ["_"] * len(tys)
+            out.append((" ".join(["." + lv] + names), rn_exec(list(b) + rest, e2, ctx)))
+        return ("matchenum", v[2], out)
+    fail("unsupported `match`")
+
+def rn_render(t, indent):
+    pad = "  " * indent
+    k = t[0]
+    if k == "leaf": return pad + t[1]
+    if k == "ite":
+        return "%sif %s then\n%s\n%selse\n%s" % (pad, fcond_prop(t[1]), rn_render(t[2], indent + 1), pad, rn_render(t[3], indent + 1))
+    if k == "dite":
+        return "%sif %s : %s then\n%s\n%selse\n%s" % (pad, t[1], t[2], rn_render(t[3], indent + 1), pad, rn_render(t[4], indent + 1))
+    if k == "matchopt":
+        return "%smatch %s with\n%s| none =>\n%s\n%s| some %s =>\n%s" % (pad, t[1], pad, rn_render(t[4], indent + 1), pad, t[2], rn_render(t[3], indent + 1))
+    if k == "matchsem":
+        return "%smatch %s with\n%s| none =>\n%s\n%s| some %s =>\n%s" % (pad, t[1], pad, rn_render(t[4], indent + 1), pad, t[2], rn_render(t[3], indent + 1))
+    if k == "matchtuple":
+        return "%smatch %s with\n%s| %s =>\n%s" % (pad, t[1], pad, t[2], rn_render(t[3], indent + 1))
+    if k == "matchenum":
+        return "%smatch %s with\n%s" % (pad, t[1], "\n".join("%s| %s =>\n%s" % (pad, p_, rn_render(b, indent + 1)) for p_, b in t[2]))
+    fail("render: %r" % (k,))
+
+def rn_ret_type(ret, state_keys, world_ty):
+    comps = []
+    if ret[0] == "tuple": comps += ret[1]
+    elif ret[0] in ("val", "resunit"): comps.append(ret[1] if ret[0] == "val" else "Option %s" % ret[1])
+    elif ret[0] == "place": comps.append(ret[2])
+    comps += [{"@vars": "Vars", "@st": world_ty}[k] for k in state_keys]
+    return " × ".join(_par(c) if "×" in c else c for c in comps)
+
+def rn_translate_fn(src, name, cfg, lean_name):
+    """a whole function: `def <lean_name> [sem] [vars] [st] <value parameters> : <result> × [Vars] × [σ]`"""
+    sig = fn_signature(src, name)
+    body = fn_body(src, name)
+    if sig is None or body is None: fail("%s not found" % name)
+    params, ret = sig
+    if ret not in cfg.rets: fail("return type %s of %s" % (ret, name))
+    ctx = RnCtx(cfg, name, "fn", cfg.rets[ret])
+    ctx.lean_name = lean_name
+    ctx.names.update(["sem", "halt", "labels", "s"])
+    env = FEnv()
+    lvals, has_vars, has_world, vars_name = [], False, False, None
+    for pn, pt in params:
+        if pt not in cfg.types: fail("parameter type %s of %s" % (pt, name))
+        role = cfg.types[pt]
+        if role[0] == "drop":
+            env.declare(pn, ("dropped",)); continue
+        if role[0] in ("vars", "varsval"):
+            if has_vars: fail("two parameters for the variables")
+            has_vars = True
+            vars_name = ctx.fresh(pn)
+            ctx.places[pn] = "@vars"
+            env.vals["@vars"] = ("o", "Vars", vars_name)
+            if role[0] == "vars": ctx.state_keys.append("@vars")
+            continue
+        if role[0] == "world":
+            ctx.places[pn] = "@st"; has_world = True
+            continue
+        if pn in cfg.fixed:
+            env.declare(pn, rn_eval(cfg.fixed[pn], env, ctx)); continue
+        ln = ctx.fresh(pn)
+        env.declare(pn, rn_opaque(role[1], ln))
+        lvals.append("(%s : %s)" % (ln, role[1]))
+    if has_world:
+        st = ctx.fresh("st")
+        env.vals["@st"] = ("o", cfg.world_ty, st)
+        ctx.state_keys.append("@st")
+    ctx.state_keys.sort(key=["@vars", "@st"].index)
+    tree = rn_exec(fparse_block(body), env, ctx)
+    lparams = []
+    if ctx.uses_sem or has_world: lparams += ["{%s : Type}" % cfg.world_ty, "(sem : CmdSem %s)" % cfg.world_ty]
+    if has_vars: lparams.append("(%s : Vars)" % vars_name)
+    if has_world: lparams.append("(%s : %s)" % (st, cfg.world_ty))
+    lparams += lvals
+    return "".join(ctx.aux) + "/-- `%s` -/\ndef %s %s :\n    %s :=\n%s\n" % (name, lean_name, " ".join(lparams), rn_ret_type(ctx.ret, ctx.state_keys, cfg.world_ty), rn_render(tree, 1))
+
+def rn_translate_step(src, name, cfg, lean_name, places, presets, header, result_ty, rs="rs"):
+    """ONE ITERATION of the single top-level `loop` of `fn name`, `break` continuing with the code after
+    the loop.  places: Rust path -> "@line" | "@vars" | "@st"; presets: Rust local (declared before the
+    loop) -> value it has in every iteration; locals of an enum type declared before the loop with a
+    constructor as initial value are picked up from their declaration"""
+    body = fn_body(src, name)
+    sig = fn_signature(src, name)
+    if body is None or sig is None: fail("%s not found" % name)
+    stmts = fparse_block(body)
+    loops = [i for i, s in enumerate(stmts) if s[0] == "loop"]
+    if len(loops) != 1 or any(s[0] in ("for", "foreach") for s in stmts): fail("%s must have exactly one top-level `loop`" % name)
+    pre, loop, post = stmts[:loops[0]], stmts[loops[0]], stmts[loops[0] + 1:]
+    ctx = RnCtx(cfg, name, "step", ("step",))
+    ctx.names.update(["sem", "halt", "labels", "is", rs])
+    ctx.places = dict(places)
+    ctx.uses_sem = True
+    env = FEnv()
+    env.vals["@line"] = ("nat", "%s.line" % rs, 0)
+    env.vals["@polls"] = ("nat", "%s.polls" % rs, 0)
+    env.vals["@vars"] = ("o", "Vars", "%s.vars" % rs)
+    env.vals["@st"] = ("o", cfg.world_ty, "%s.st" % rs)
+    for pn, pt in sig[0]:
+        if pn in cfg.fixed: env.declare(pn, rn_eval(cfg.fixed[pn], env, ctx))
+    for n, v in presets.items(): env.declare(n, v)
+    for s in pre:
+        if s[0] != "let" or s[1][0] != "pid": fail("unsupported statement before the loop of %s" % name)
+        n = s[1][1]
+        if n in places or n in presets: continue          # configured: how the loop's state is read
+        if s[3][0] == "path" and s[3][1] in cfg.enums:
+            v = rn_eval(s[3], env, ctx)
+            env.declare(n, v); ctx.loop_locals[n] = v
+            continue
+        fail("the local %s declared before the loop of %s is not configured" % (n, name))
+    ctx.in_loop, ctx.post = True, post
+    tree = rn_exec(list(loop[1]), env, ctx)
+    return "%s\ndef %s %s :\n    %s :=\n%s\n" % (header, lean_name, "{%s : Type} (sem : CmdSem %s) (is : List Instruction) (labels : List (Str × Nat))\n    (halt : Nat → %s → Bool) (%s : RunState %s)" % (cfg.world_ty, cfg.world_ty, cfg.world_ty, rs, cfg.world_ty), result_ty, rn_render(tree, 1))
